@@ -1174,6 +1174,13 @@ func (x *c01Ctx) pushbackOnAllPaths(d *c01Dir, hdr []cgRead, mr, lo, hi CV) {
 	cons := "push-back on every path to the segment phase"
 	mrNode := g.nodeOf(mr.C, mr.V.(*ssa.Call))
 	loL, hiL := g.lin(lo), g.lin(hi)
+	// equal linear forms, where two reads of one unassigned local variable count as the same term
+	linEq := func(a, b cgLin) bool {
+		if a == b {
+			return true
+		}
+		return a.K == b.K && !a.isConst() && !b.isConst() && g.sameValue(a.Base, b.Base)
+	}
 	// does the edge (cond taken with branch) prove "no surplus": hi <= lo ?
 	noSurplus := func(c cgCond) (proves, about bool) {
 		cmp, ok := g.decode(c.Cond, c.Branch)
@@ -1182,22 +1189,22 @@ func (x *c01Ctx) pushbackOnAllPaths(d *c01Dir, hdr []cgRead, mr, lo, hi CV) {
 		}
 		a, b, op := g.lin(cmp.X), g.lin(cmp.Y), cmp.Op
 		// hi ? lo
-		if a == loL && b == hiL {
+		if linEq(a, loL) && linEq(b, hiL) {
 			a, b, op = b, a, c01FlipOp(op)
 		}
-		if a == hiL && b == loL {
+		if linEq(a, hiL) && linEq(b, loL) {
 			return op == token.LEQ || op == token.EQL || op == token.LSS, true
 		}
 		// (hi - lo) ? 0   /  len(window) ? 0
 		isDiff := func(v CV) bool {
 			v = g.deep(v)
 			if bo, ok := v.V.(*ssa.BinOp); ok && bo.Op == token.SUB {
-				return g.lin(CV{v.C, bo.X}) == hiL && g.lin(CV{v.C, bo.Y}) == loL
+				return linEq(g.lin(CV{v.C, bo.X}), hiL) && linEq(g.lin(CV{v.C, bo.Y}), loL)
 			}
 			if c, ok := v.V.(*ssa.Call); ok && builtinName(c) == "len" && len(c.Call.Args) == 1 {
 				w := g.deep(CV{v.C, c.Call.Args[0]})
 				if sl, ok := w.V.(*ssa.Slice); ok && sl.Low != nil && sl.High != nil {
-					return g.lin(CV{w.C, sl.Low}) == loL && g.lin(CV{w.C, sl.High}) == hiL
+					return linEq(g.lin(CV{w.C, sl.Low}), loL) && linEq(g.lin(CV{w.C, sl.High}), hiL)
 				}
 			}
 			return false
@@ -1431,9 +1438,16 @@ func (x *c01Ctx) headerG(e, d *c01Dir) {
 		if d.fill != nil && s.n == d.fill.n {
 			continue
 		}
-		if sl, ok := d.g.deep(CV{s.n.C, s.call.Call.Args[0]}).V.(*ssa.Slice); ok && sl.High != nil {
-			if k, ok := d.g.constInt(CV{s.n.C, sl.High}); ok {
-				scan = k
+		if w := d.g.deep(CV{s.n.C, s.call.Call.Args[0]}); true {
+			if sl, ok := w.V.(*ssa.Slice); ok {
+				if sl.High != nil {
+					if k, ok := d.g.constInt(CV{w.C, sl.High}); ok {
+						scan = k
+					}
+				} else if l, ok := d.g.sliceLenLin(CV{w.C, sl.X}, 0); ok && l.isConst() {
+					// buf[n:] of a buffer cut to a constant length before
+					scan = l.K
+				}
 			}
 		}
 	}
